@@ -3,7 +3,7 @@
 From Coq Require Import NArith List String Bool Ascii.
 From Falco Require Import Base.TablesBase Model.ScopeMask Model.LintTables Model.LintOps.
 From Falco Require Import Gen.LintConsts Gen.LintVars Gen.LintFuncs Gen.RefVars Gen.RefFuncs Gen.InterpFuncs.
-From Falco Require Import Gen.ObsVars Gen.ObsFuncs Gen.ObsStmts Gen.ObsOps Gen.ObsWide Gen.ObsCoerce Gen.ObsInferred Gen.KnownGaps.
+From Falco Require Import Gen.ObsVars Gen.ObsFuncs Gen.ObsStmts Gen.ObsOps Gen.ObsWide Gen.ObsCoerce Gen.ObsInferred Gen.ObsIdArgs Gen.KnownGaps.
 Import ListNotations.
 Local Open Scope N_scope.
 Local Open Scope string_scope.
@@ -228,3 +228,19 @@ Definition gap_kind (kind : string) : string :=
    (a use that fails from one entry subroutine, or for one pair of entries, fails for every superset) *)
 Definition use_gap_covers (kind name at_ : string) (m : N) : bool :=
   existsb (fun p => N.eqb (N.land (mask_at p) m) (mask_at p) && gap_covers (gap_kind kind) name at_ p) positions45.
+
+(* ---- the first ID-typed argument of a built-in (and the target of `add`) drawn from every identifier family:
+   the five HTTP objects as header, header collection and object, declared objects, enumeration identifiers *)
+Definition id_objects : list string := ["req"; "bereq"; "beresp"; "resp"; "obj"].
+Definition idarg_idents : list string :=
+  map (fun o => o ++ ".http.X-Verif-One") id_objects ++ map (fun o => o ++ ".headers") id_objects ++ id_objects
+  ++ ["pb_one"; "rc_one"; "tbl_one"; "acl_one"; "be_one"; "aes128"; "sha256"].
+Definition idarg_rows : list (string * N) :=
+  flat_map (fun kv => flat_map (fun isg => if existsb (N.eqb (tyc "IDType")) (snd isg) then [(fst kv, fst isg)] else [])
+                               (combine (map N.of_nat (seq 0 (List.length (f_args (snd kv))))) (f_args (snd kv))))
+           lint_func_flat
+  ++ [("stmt:add", 0%N)].
+(* bit 9 * identifier index + scope index *)
+Definition idarg_cells : list (N * string * N) :=
+  flat_map (fun ki => map (fun s => ((9 * fst ki + s)%N, snd ki, s)) idx9)
+           (combine (map N.of_nat (seq 0 (List.length idarg_idents))) idarg_idents).
